@@ -12,6 +12,7 @@ import (
 	"sync"
 	"time"
 
+	"github.com/MixinNetwork/mixin/common"
 	"verifharness/vh"
 )
 
@@ -90,17 +91,20 @@ func runChild(args ...string) (int, string) {
 }
 
 // dryRun executes the whole workload without a crash and returns its call trace.
-func dryRun(root string, specPath string) ([]Call, []string, int, string) {
+func dryRun(root string, specPath string) ([]Call, []string, int, string, string) {
 	dir := filepath.Join(root, "dry")
 	must(os.MkdirAll(dir, 0o755))
 	tr := filepath.Join(root, "dry.trace")
 	lg := filepath.Join(root, "dry.log")
 	code, out := runChild("child-run", "--dir", dir, "--spec", specPath, "--mode", "none", "--trace", tr, "--log", lg)
-	var log []string
-	if b, err := os.ReadFile(lg); err == nil {
-		json.Unmarshal(b, &log)
+	var lf struct {
+		Log    []string `json:"log"`
+		Total0 string   `json:"total0"`
 	}
-	return readTrace(tr), log, code, out
+	if b, err := os.ReadFile(lg); err == nil {
+		json.Unmarshal(b, &lf)
+	}
+	return readTrace(tr), lf.Log, code, out, lf.Total0
 }
 
 func crashAndRecover(root, specPath string, idx int, pt point) *outcome {
@@ -173,6 +177,7 @@ func callsTerm(cs []Call) string {
 type region struct {
 	lastCons    *Call  // last consensus-class snapshot durably finalized in the prefix
 	mintBatch   uint64 // highest mint batch durably finalized in the prefix
+	dupDone     bool   // a snapshot containing an already finalized transaction is in the prefix
 	markerDone  bool   // its WriteConsensusSnapshot is in the prefix
 	laterSnap   bool   // another WriteSnapshot follows it in the prefix
 	f6          bool
@@ -188,11 +193,18 @@ func classify(full []Call, plen int) region {
 	r.acceptChain = -1
 	prefix := full[:plen]
 	zero, one := map[int]bool{}, map[int]bool{}
+	seenTx := map[int]bool{}
 	for i := range prefix {
 		c := &prefix[i]
 		switch c.Name {
 		case "WriteSnapshot":
 			r.snapCount++
+			for _, id := range c.Txs {
+				if seenTx[id] {
+					r.dupDone = true
+				}
+				seenTx[id] = true
+			}
 			if c.Mint > r.mintBatch {
 				r.mintBatch = c.Mint
 			}
@@ -236,6 +248,7 @@ type Harness struct {
 	Prop     string
 	sigCount map[string]int
 	Workers  int
+	total0   string // XIN total right after genesis (crash-free run of the current workload)
 }
 
 func (h *Harness) fail(sig, what string, cs CaseJS) {
@@ -265,7 +278,8 @@ func (h *Harness) RunWorkload(name string, spec Spec, sel selector) {
 	sb, _ := json.Marshal(spec)
 	must(os.WriteFile(specPath, sb, 0o644))
 
-	full, log, code, out := dryRun(root, specPath)
+	full, log, code, out, total0 := dryRun(root, specPath)
+	h.total0 = total0
 	if code != 0 || len(full) == 0 {
 		c.Note(fmt.Sprintf("workload %s: crash-free run failed (exit %d): %s", name, code, out))
 		c.Fail("workload-run-failed", fmt.Sprintf("workload %s does not complete without a crash (exit %d): %s", name, code, out),
@@ -425,6 +439,9 @@ func (h *Harness) judge(name string, spec Spec, full []Call, ids map[string]int,
 		if rg.f7 {
 			kind = "inside-accept-window(F7-region)"
 		}
+		if rg.dupDone {
+			kind += ",after-second-inclusion"
+		}
 		obs := ""
 		complete := true
 		if o.rec != nil {
@@ -473,10 +490,37 @@ func (h *Harness) judge(name string, spec Spec, full []Call, ids map[string]int,
 				h.fail("store-scan-problem", where+": "+p, cs)
 			}
 		}
+		if want := expectedTotal(h.total0, full[:plen]); want != "" && o.rec.XinTotal != want {
+			h.fail("asset-total-changed", fmt.Sprintf("%s: XIN total is %s, genesis total plus the deposits and mints finalized so far is %s", where, o.rec.XinTotal, want), cs)
+		}
 		if o.rec.TopoCount != spec.Nodes+1+rg.snapCount {
 			h.fail("topology-position-not-unique", fmt.Sprintf("%s: %d snapshots were durably written, the topology holds %d", where, spec.Nodes+1+rg.snapCount, o.rec.TopoCount), cs)
 		}
 	}
+}
+
+// expectedTotal: genesis total plus what each deposit / mint adds when it is FIRST finalized.
+func expectedTotal(total0 string, prefix []Call) string {
+	if total0 == "" {
+		return ""
+	}
+	t := common.NewIntegerFromString(total0)
+	seen := map[int]bool{}
+	for _, c := range prefix {
+		if c.Name != "WriteSnapshot" {
+			continue
+		}
+		for i, id := range c.Txs {
+			if seen[id] {
+				continue
+			}
+			seen[id] = true
+			if i < len(c.Adds) && c.Adds[i] != "" {
+				t = t.Add(common.NewIntegerFromString(c.Adds[i]))
+			}
+		}
+	}
+	return t.String()
 }
 
 func NewHarness(prop string) *Harness {
